@@ -233,6 +233,24 @@ Example invalidate_range_covers_nontrivial :
   intersects 4 3 2 0 /\ intersects 4 3 2 1 /\ ~ intersects 4 3 2 2.
 Proof. vm_compute. repeat split; try reflexivity; try discriminate. intros [_ H]. discriminate. Qed.
 
+(* ---- InvalidationTracker::invalidated_pages is never cleared by a reload: once a page is invalidated (explicitly, or
+        by being evicted) every later get_page drops it and loads it from the file again, whatever the table held ---- *)
+Theorem invalidated_page_is_always_reloaded : forall c k,
+  pmem k (inval c) = true ->
+  snd (get_page c k) = match files c (fst k) with Some f => page_of (psize c) f (snd k) | None => [] end /\
+  pmem k (inval (fst (get_page c k))) = true.
+Proof. exact invalidated_reload_proof. Qed.
+Check invalidated_page_is_always_reloaded : forall c k,
+  pmem k (inval c) = true ->
+  snd (get_page c k) = match files c (fst k) with Some f => page_of (psize c) f (snd k) | None => [] end /\
+  pmem k (inval (fst (get_page c k))) = true.
+Print Assumptions invalidated_page_is_always_reloaded.
+Example invalidated_page_reloaded_nontrivial :
+  let fs := fun g => if g =? 1 then Some [1; 2; 3; 4; 5; 6; 7; 8] else None in
+  let c := pc_invalidate_range (fst (pc_read (pc_new 4 64 fs) 1 0 8)) 1 5 1 in
+  pmem (1, 1) (inval c) = true /\ snd (get_page c (1, 1)) = [5; 6; 7; 8].
+Proof. vm_compute. split; reflexivity. Qed.
+
 (* ---- LruPageCache::close_file(f): no page of f stays cached or marked, the pages and marks of every other file
         are untouched, f has no file entry afterwards; Err exactly when f had none before ---- *)
 Theorem invalidate_file_covers : forall c fid,
@@ -253,6 +271,13 @@ Check invalidate_file_covers : forall c fid,
   psize c' = psize c /\
   snd (pc_close_file c fid) = match files c fid with Some _ => true | None => false end.
 Print Assumptions invalidate_file_covers.
+Example invalidate_file_covers_nontrivial :
+  let fs := fun g => if g =? 1 then Some [1; 2; 3; 4; 5; 6; 7; 8] else if g =? 2 then Some [9; 9; 9; 9; 9] else None in
+  let c := fst (pc_read (fst (pc_read (pc_new 4 64 fs) 1 0 8)) 2 0 5) in
+  map fst (inner c) = [(2, 1); (2, 0); (1, 1); (1, 0)] /\
+  map fst (inner (fst (pc_close_file c 1))) = [(2, 1); (2, 0)] /\ snd (pc_close_file c 1) = true /\
+  snd (pc_close_file (fst (pc_close_file c 1)) 1) = false.
+Proof. vm_compute. repeat split; reflexivity. Qed.
 
 (* ---- read / read_with_prefetch / prefetch / invalidate_page / invalidate_range / close_file histories in which
         the file is also rewritten in place by somebody else (XWrite: no cache call at all).  `stale_step` keeps
@@ -394,6 +419,19 @@ Check shared_cache_reads_stay_fresh :
   0 < psize (b_cache St s) -> stale_ok (b_cache St s) D -> bops_ok (files (b_cache St s)) ops ->
   cb_fresh St i_put i_get i_remove i_size i_contains i_len s D ops.
 Print Assumptions shared_cache_reads_stay_fresh.
+Example shared_cache_reads_nontrivial :
+  let fs := fun g => if g =? 1 then Some [1; 2; 3; 4; 5; 6; 7; 8; 9; 10; 11; 12] else None in
+  let s := mkB mem mem_new (pc_new 4 8 fs) 2 true 0 [] 0 in
+  let ops := [BCache (XRead 1 0 12); BPut [9; 8; 7; 6; 5; 4; 3; 2; 1; 0]; BPrefetch 0 40; BCache (XWrite 1 3 [40; 50]);
+              BGet 1; BCache (XInvRange 1 3 2); BRemove 1; BCache (XRead 1 2 5)] in
+  0 < psize (b_cache mem s) /\ stale_ok (b_cache mem s) [] /\ bops_ok (files (b_cache mem s)) ops /\
+  snd (cb_run mem mem_put mem_get mem_remove mem_size mem_contains mem_len s ops) =
+    [RCache (XBytes [1; 2; 3; 4; 5; 6; 7; 8; 9; 10; 11; 12]); RId (Some 1); RNone; RCache XUnit;
+     RBytes (Some [9; 8; 7; 6; 5; 4; 3; 2; 1; 0]); RCache XUnit; ROk true; RCache (XBytes [3; 40; 50; 6; 7])].
+Proof.
+  split; [reflexivity|]. split; [intros k pg H; discriminate H|].
+  split; [cbn; repeat split; intros f E; inversion E; cbn; lia|vm_compute; reflexivity].
+Qed.
 
 (* ====================================================================================================== *)
 (* extension: ConcurrentLruMap with RoundRobin / ThreadAffinity routing                                   *)
@@ -444,6 +482,10 @@ Check rr_one_shard_is_lru : forall cp ctr ops,
   1 <= cp -> cp < INVALID ->
   snd (rr_run 0 (fun _ => lru_new cp) ctr 1 ops) = snd (s_run cp [] ops).
 Print Assumptions rr_one_shard_is_lru.
+Example rr_one_shard_nontrivial :
+  snd (rr_run 0 (fun _ => lru_new 2) 5 1 [Put 1 10; Put 2 20; Contains 1; Put 3 30; Get 1; Len]) =
+  [(RPut None, []); (RPut None, []); (RContains true, []); (RPut None, [(1, 10)]); (RGet None, []); (RLen 2, [])].
+Proof. vm_compute. reflexivity. Qed.
 (* with more than one shard it is not (finding concurrent_round_robin_routing): the get looks in another shard than the put *)
 Theorem rr_get_after_put_refuted : exists mask cp n k v,
   1 <= cp /\ snd (rr_run mask (fun _ => lru_new cp) 0 n [Put k v; Get k]) = [(RPut None, []); (RGet None, [])].
